@@ -111,8 +111,9 @@ def queue_invariant(c: Ctx) -> list[str]:
     return why
 
 
-@ob('C14.3', 'MPT', 'every normal return of dispatch has passed put_nowait(event) and the history insert (the `event_queue is None` arm is discharged by the invariant '
-    '_is_running ⇒ event_queue is a truthy, never-reset queue object)')
+@ob('C14.3', 'MPT', 'every normal return of dispatch has passed put_nowait(event) and the history insert, or found this very event already in this bus\'s history (accepted by an earlier '
+    'dispatch: the history is written only after a successful put_nowait); the `event_queue is None` arm is discharged by the invariant _is_running ⇒ event_queue is a truthy, '
+    'never-reset queue object')
 def c14_3(c: Ctx) -> None:
     d, g, ev, puts, hist = dispatch_nodes(c)
     c.floor(len(puts), 1, 'put_nowait(event) in dispatch')
